@@ -206,6 +206,8 @@ class _Desugar(ast.NodeTransformer):
                                 scope[x.target.id] = r
                             elif _mentions(x.annotation, r):
                                 scope["container:" + x.target.id] = r
+                                if ast.unparse(x.annotation).split("[")[0].split(".")[-1] in ("list", "List", "Sequence", "MutableSequence", "deque", "Deque", "Iterable", "Collection", "set", "frozenset"):
+                                    scope["seq:" + x.target.id] = r   # iterating it yields the records themselves
                     elif isinstance(x, ast.NamedExpr):
                         r = self.rec_of(x.value)
                         if r:
@@ -216,6 +218,10 @@ class _Desugar(ast.NodeTransformer):
                             c = self.container_of(it.func.value)
                             if c:
                                 scope[x.target.id] = c
+                        elif isinstance(it, ast.Name) and ("seq:" + it.id) in scope:
+                            scope[x.target.id] = scope["seq:" + it.id]
+                        elif isinstance(it, ast.Name) and any(("seq:" + it.id) in sc for sc in self.typed):
+                            scope[x.target.id] = next(sc["seq:" + it.id] for sc in reversed(self.typed) if ("seq:" + it.id) in sc)
         self.typed.pop()
         return scope
 
